@@ -324,17 +324,25 @@ static void runC28(bool thorough, int shard, int nsh) {
     struct Step { int op; int a, b; };   // arguments index the terms existing so far (leaves first)
     const int NOPS = 9;
     int L = thorough ? 4 : 3;
+    bool pureLRA = false;   // in the pure arithmetic logic mkEq orients arithmetic equalities itself (insensitive to argument order); with UF it keeps the given order
+    int leafOrder = 0;      // 0: variables are created before the constants, 1: constants first (term references are creation-ordered and
+                            // some constructors orient their result by the references of the leaves)
     auto build = [&](std::vector<Step> const & seq, bool swapArgs, std::vector<std::string> * out) -> bool {
-        ArithLogic l(Logic_t::QF_UFLRA);
-        std::vector<PTRef> ts = {l.mkRealVar("x"), l.mkRealVar("y"), l.mkBoolVar("p"), l.mkBoolVar("q"), l.mkRealConst(FastRational(1)), l.mkRealConst(FastRational(2))};
-        SymRef f = l.declareFun("f", l.getSort_real(), {l.getSort_real()});
+        ArithLogic l(pureLRA ? Logic_t::QF_LRA : Logic_t::QF_UFLRA);
+        if (pureLRA) for (auto & s : seq) if (s.op == 7) return false;
+        PTRef c1 = PTRef_Undef, c2 = PTRef_Undef;
+        if (leafOrder == 1) { c1 = l.mkRealConst(FastRational(-3)); c2 = l.mkRealConst(FastRational(2)); }
+        PTRef vx = l.mkRealVar("x"), vy = l.mkRealVar("y"), vp = l.mkBoolVar("p"), vq = l.mkBoolVar("q");
+        if (leafOrder == 0) { c1 = l.mkRealConst(FastRational(-3)); c2 = l.mkRealConst(FastRational(2)); }
+        std::vector<PTRef> ts = {vx, vy, vp, vq, c1, c2};
+        SymRef f = pureLRA ? SymRef_Undef : l.declareFun("f", l.getSort_real(), {l.getSort_real()});
         std::map<std::string, PTRef> byStruct;
         for (auto & s : seq) {
             if (s.a >= (int)ts.size() || s.b >= (int)ts.size()) return false;
             PTRef a = ts[s.a], b = ts[s.b];
             bool ab = l.hasSortBool(a), bb = l.hasSortBool(b);
             // constructors that normalise the argument order: and, or, + , *, and = on non-Boolean arguments
-            bool comm = s.op == 0 || s.op == 1 || s.op == 4 || s.op == 6;   // = keeps the given argument order (no normalisation claimed)
+            bool comm = s.op == 0 || s.op == 1 || s.op == 4 || s.op == 6 ;   // = is not swapped between the two runs: its orientation depends on term references, i.e. on the history of the logic; Boolean = keeps the given argument order (no normalisation claimed); arithmetic = is oriented by the constructor
             if (swapArgs && comm) std::swap(a, b), std::swap(ab, bb);
             PTRef r = PTRef_Undef;
             try {
@@ -367,6 +375,15 @@ static void runC28(bool thorough, int shard, int nsh) {
             PTRef expect = ts[base + i];
             // for normalising constructors the original argument order must give the term that was built with swapped arguments
             if (r != expect) fail("identity:rebuild-gives-another-reference", structural(l, expect) + " vs " + structural(l, r));
+            // inside ONE logic the normalising constructors must be insensitive to the argument order (and, or, +, *; = on arithmetic
+            // arguments in the pure arithmetic logic, where mkEq orients the equality itself)
+            bool commHere = s.op == 0 || s.op == 1 || s.op == 4 || s.op == 6 || (s.op == 2 && pureLRA && !l.hasSortBool(a));
+            if (commHere) {
+                PTRef r2 = PTRef_Undef;
+                switch (s.op) { case 0: r2 = l.mkAnd(b, a); break; case 1: r2 = l.mkOr(b, a); break; case 2: r2 = l.mkEq(b, a); break; case 4: r2 = l.mkPlus(b, a); break; case 6: r2 = l.mkTimes(b, a); break; }
+                cov["swapped_rebuilds_in_the_same_logic"]++;
+                if (r2 != expect) fail("identity:argument-order-changes-the-term", structural(l, expect) + " vs " + structural(l, r2) + (leafOrder ? " (constants created before the variables)" : ""));
+            }
         }
         if (out) for (size_t i = base; i < ts.size(); i++) out->push_back(structural(l, ts[i]));
         return true;
@@ -377,13 +394,18 @@ static void runC28(bool thorough, int shard, int nsh) {
         if (depth > 0) {
             if ((idx++ % nsh) == shard) {
                 std::vector<std::string> s1, s2;
-                if (build(seq, false, &s1)) {
-                    cov["sequences"]++;
-                    if (build(seq, true, &s2)) {
-                        cov["sequences_with_swapped_commutative_arguments"]++;
-                        if (s1 != s2) fail("identity:commutative-argument-order-changes-the-term", s1.back() + " vs " + s2.back());
+                for (int variant = 0; variant < 4; variant++) {
+                    leafOrder = variant & 1; pureLRA = variant >> 1;
+                    s1.clear(); s2.clear();
+                    if (build(seq, false, &s1)) {
+                        cov[variant == 0 ? "sequences" : variant == 1 ? "sequences_constants_created_first" : "sequences_pure_arithmetic_logic"]++;
+                        if (build(seq, true, &s2)) {
+                            cov["sequences_with_swapped_commutative_arguments"]++;
+                            if (s1 != s2) fail("identity:commutative-argument-order-changes-the-term", s1.back() + " vs " + s2.back() + (leafOrder ? " (constants created before the variables)" : ""));
+                        }
                     }
                 }
+                leafOrder = 0; pureLRA = false;
             }
         }
         if (depth == L) return;
